@@ -609,6 +609,9 @@ func (r *Raft) AddServer(
 	r.configuration = &configuration
 	r.followers[id] = &follower{nextIndex: 1}
 
+	// The future is resolved once the configuration has been applied.
+	r.configurationResponseCh = configurationFuture.responseCh
+
 	r.sendAppendEntriesToPeers()
 
 	r.logger.Debugf(
@@ -668,6 +671,9 @@ func (r *Raft) RemoveServer(id string, timeout time.Duration) Future[Configurati
 
 	// Add the configuration to the log.
 	r.appendConfiguration(&configuration)
+
+	// The future is resolved once the configuration has been applied.
+	r.configurationResponseCh = configurationFuture.responseCh
 
 	r.sendAppendEntriesToPeers()
 
@@ -1811,6 +1817,7 @@ func (r *Raft) applyLoop() {
 			case ConfigurationEntry:
 				r.applyConfiguration(entry.Data)
 				respond(r.configurationResponseCh, *r.configuration, nil)
+				r.configurationResponseCh = nil
 			case OperationEntry:
 				responseCh := r.operationManager.pendingReplicated[entry.Index]
 				delete(r.operationManager.pendingReplicated, entry.Index)
@@ -1964,6 +1971,10 @@ func (r *Raft) becomeFollower(leaderID string, term uint64) {
 	// Cancel any pending operations.
 	r.operationManager.notifyLostLeaderShip(r.id, r.leaderID)
 	r.operationManager = newOperationManager(r.options.leaseDuration)
+
+	// Cancel a pending membership change: whether it commits is now up to another leader.
+	respond(r.configurationResponseCh, Configuration{}, ErrNotLeader)
+	r.configurationResponseCh = nil
 
 	r.logger.Infof("entered the follower state: term = %d", r.currentTerm)
 }
